@@ -199,7 +199,7 @@ _p('C13', 'model_checking', 'DESIGN.md 5/C13',
 CHAIN = "chain-level (element-level) statements are bounded: tables of 1..4 buckets, 4 resident elements with keys 0,1,3,1 (duplicates), hash functions k%m, (k/2)%m, 0; every pair of geometries for a pending rehash, interleaved keyed operations, a second resize while pending, forced rehash, shrink_to_fit, swap"
 _p('C03', 'model_checking', 'DESIGN.md 5/C03',
    [BOUNDED_ASSUME, CALLBACK_ASSUME, HIST_ASSUME, CHAIN, SIZE_ASSUME,
-    "proved (unbounded, every table size): the flat invariant and the sweep invariant of the bucket array are preserved by get_bucket / rehash / resize / shrink_to_fit / set_capacity; every bucket-array access is in bounds; cstl_clean_bucket is replaced by its flat contract there (bounded-checked on chains of 1..3 nodes)"],
+    "proved (unbounded, every table size): the flat invariant and the sweep invariant of the bucket array are preserved by get_bucket / rehash / resize / shrink_to_fit / set_capacity; every bucket-array access is in bounds; cstl_clean_bucket is replaced by its flat contract there (bounded-checked on chains of 0..3 nodes)"],
    [NORM])
 _p('C04', 'model_checking', 'DESIGN.md 5/C04',
    [BOUNDED_ASSUME, CALLBACK_ASSUME, CHAIN,
